@@ -469,3 +469,60 @@ def e_remote_faults(k: int) -> bool:
         if not ok:
             _say(msg)
         return ok
+
+
+# =========================================================================== listing under directory-scan faults (local)
+def local_list_fault_case(which, count, prefix_i):
+    """An OSError while scanning the `which`-th directory of a listing (transient `count` times): the listing is either
+    complete or the operation raises - a silently incomplete listing would make clean/delete treat live objects as absent."""
+    import replicat.utils.fs as FS
+    names = ['data/aa/bb/x1', 'data/aa/cc/x2', 'data/dd/ee/x3', 'snapshots/ff/y1', 'snapshots/gg/y2', 'top']
+    prefix = ['', 'data/', 'snapshots/'][prefix_i]
+    with world.scratch('c12l') as d:
+        root = d / 'repo'
+        for n in names:
+            (root / n).parent.mkdir(parents=True, exist_ok=True)
+            (root / n).write_bytes(b'x')
+        state = {'n': 0, 'left': count}
+        real = os.scandir
+
+        def faulty(path):
+            i = state['n']
+            state['n'] += 1
+            if i == which and state['left'] > 0:
+                state['left'] -= 1
+                raise OSError(5, 'injected I/O error', str(path))
+            return real(path)
+
+        # patch os.scandir itself: whatever walks the tree (a hand-written stack, os.walk, ...) goes through it
+        saved = os.scandir
+        os.scandir = faulty
+        try:
+            be = LB.Local(str(root))
+            try:
+                got = sorted(be.list_files(prefix))
+                raised = None
+            except OSError as e:
+                got, raised = None, e
+        finally:
+            os.scandir = saved
+        want = sorted(n for n in names if n.startswith(prefix))
+        if raised is not None:
+            return True, 'raised'
+        if got != want:
+            return False, f'list_files({prefix!r}) returned {got} although scanning a directory failed: expected {want} or an error'
+        return True, 'complete'
+
+
+def e_local_list_faults(k: int) -> bool:
+    """
+    pre: 0 <= k < 10 * 3 * 3
+    post: _
+    """
+    which, ci, pi = digits(k, [10, 3, 3])
+    with NoTracing():
+        ok, msg = local_list_fault_case(which, [1, 2, 9][ci], pi)
+        tick('e_local_list_faults', [which, [1, 2, 9][ci], pi, msg[:9]])
+        if not ok:
+            _say(msg)
+        return ok
